@@ -58,3 +58,17 @@ pub fn split_signed(der: &[u8]) -> Option<(Vec<u8>, Vec<u8>, Vec<u8>)> {
 	}
 	Some((kids[0].whole.to_vec(), kids[1].whole.to_vec(), kids[2].content[1..].to_vec()))
 }
+
+/// the serialNumber INTEGER of a certificate, as a non-negative number (None: not a certificate,
+/// a negative INTEGER, or more than 16 content octets)
+pub fn cert_serial_value(der: &[u8]) -> Option<u128> {
+	let (tbs, _, _) = split_signed(der)?;
+	let (t, _) = read_tlv(&tbs)?;
+	let kids = children(t.content)?;
+	let i = if kids.first()?.tag == 0xa0 { 1 } else { 0 };
+	let s = kids.get(i)?;
+	if s.tag != 0x02 || s.content.is_empty() || s.content[0] & 0x80 != 0 || s.content.len() > 17 {
+		return None;
+	}
+	Some(s.content.iter().fold(0u128, |a, b| (a << 8) | *b as u128))
+}
